@@ -167,7 +167,13 @@ def _validate_chunk(module, cfg, lines, dest, timeout, cover=False):
     if mv:
         # a monitor invariant failed in the state reached by consuming line l - 1
         ls = re.findall(r"/\\ l = (\d+)", out)
-        why = [re.sub(r"\s+", " ", w) for w in re.findall(r'(?:b\d\d|bad) \|->\s*\{\s*("[^}]*?")\s*\}', out, re.S)]
+        # the complaints of the property whose invariant failed (MonC04 -> b04), else any
+        mine = re.match(r"MonC(\d\d)$", mv.group(1))
+        why = []
+        if mine:
+            why = [re.sub(r"\s+", " ", w) for w in re.findall(r'b%s \|->\s*\{\s*("[^}]*?")\s*\}' % mine.group(1), out, re.S)]
+        if not why:
+            why = [re.sub(r"\s+", " ", w) for w in re.findall(r'(?:b\d\d|bad) \|->\s*\{\s*("[^}]*?")\s*\}', out, re.S)]
         return ("inv", mv.group(1), int(ls[-1]) - 1 if ls else (int(m.group(1)) if m else 0),
                 why[-1] if why else ""), r
     if m:
